@@ -511,7 +511,33 @@ class SimBackend(object):
     def _real(self, solver, lp, rec, kw):
         """Real CBC through real PuLP (subprocess, real files in TMPDIR)."""
         self.clock.advance(self._duration(getattr(solver, 'timeLimit', None)))
-        st = _REAL_ACTUAL_SOLVE(solver, lp, **kw)
+        seed = self.cfg.get('real_tiebreak_seed')
+        saved_obj = None
+        if seed and not rec.get('solver_options'):
+            # Which optimum real CBC returns is decided here, not by CBC: a
+            # seeded perturbation eps * sum r_k x_k over the decision
+            # variables with |total| < 0.5 cannot change the optimal value of
+            # the (integer) quantity being optimised, but makes every optimal
+            # solution a candidate answer.
+            ids, _pairs, _n1, _t = self.pairs_provider(lp)
+            idset = set(ids)
+            pvars = [v for v in lp.variables() if id(v) in idset]
+            if pvars:
+                r = random.Random(seed + self.round)
+                eps = 0.4 / len(pvars)
+                saved_obj = lp.objective
+                pert = pulp.LpAffineExpression(saved_obj)
+                sign = -1.0 if lp.sense == pulp.LpMaximize else 1.0
+                for v in pvars:
+                    pert += sign * eps * r.uniform(-1, 1) * v
+                pert.name = getattr(saved_obj, 'name', None)
+                lp.objective = pert
+                rec['real_tiebreak'] = True
+        try:
+            st = _REAL_ACTUAL_SOLVE(solver, lp, **kw)
+        finally:
+            if saved_obj is not None:
+                lp.objective = saved_obj
         rec['status'] = pulp.LpStatus[lp.status]
         rec['real'] = True
         if lp.status == pulp.LpStatusOptimal and \
